@@ -233,7 +233,7 @@ def _check(ctx, case, dev, net, calls, windows, lifetime, modulus_state=None):
             if p["counter"] is not None:
                 c = p["counter"]
                 if c != expected:
-                    if c == 0 and expected > 0 and (ms["W"] is None or ms["W"] == expected):
+                    if c == 0 and expected > 1 and (ms["W"] is None or ms["W"] == expected):
                         if expected > 65536:
                             ctx.violation("counter-modulus", f"counter wrapped at {expected} > 65536", case)
                         ms["W"] = expected
